@@ -64,3 +64,50 @@ fn btree_init_only() {
     p.init_leaf();
     assert!(p.cell_count() == 0);
 }
+
+/// C26-O4 with a concrete duplicate layout [1,2 | 2,3] (separator 2), symbolic probe.
+#[kani::proof]
+#[kani::unwind(6)]
+fn c26_o4_descent_dup_layout() {
+    let mut lb = [0u8; PAGE_SIZE];
+    let mut rb = [0u8; PAGE_SIZE];
+    let mut ib = [0u8; PAGE_SIZE];
+    Page::new(&mut lb).rebuild_leaf(PageId::new(3), &[(vec![1u8], 10), (vec![2u8], 11)]);
+    Page::new(&mut rb).rebuild_leaf(PageId::new(0), &[(vec![2u8], 12), (vec![3u8], 13)]);
+    let mut ip = Page::new(&mut ib); ip.init_internal(PageId::new(2));
+    ip.internal_insert_at(0, &[2u8], PageId::new(3)).unwrap();
+    let t: u8 = kani::any();
+    let (child, _) = ip.internal_child_for_key(&[t]).unwrap();
+    let pos = (1 < t) as usize + (2 < t) as usize + (2 < t) as usize + (3 < t) as usize;
+    if pos < 2 { assert!(child.as_u64() == 2); } else { assert!(child.as_u64() == 3); }
+}
+
+/// C26-O5: delete's search finds every stored (key,payload) pair among equal keys kept newest-first.
+#[kani::proof]
+#[kani::unwind(8)]
+fn c26_o5_delete_search_among_equal_keys() {
+    let mut b = [0u8; PAGE_SIZE];
+    let mut p = Page::new(&mut b); p.init_leaf();
+    // inserted in time order payload 1 then 2 => slot order [2,1] because insert goes to the lower bound
+    let i = p.leaf_lower_bound(&[5u8]).unwrap(); p.leaf_insert_at(i, &[5u8], 1).unwrap();
+    let i = p.leaf_lower_bound(&[5u8]).unwrap(); p.leaf_insert_at(i, &[5u8], 2).unwrap();
+    let want: u64 = kani::any();
+    kani::assume(want == 1 || want == 2);
+    let key = [5u8];
+    let found = (0..p.cell_count()).collect::<Vec<_>>().binary_search_by(|&i| {
+        let (k, v) = p.leaf_cell_key_and_payload(i).unwrap();
+        (k, v).cmp(&(&key[..], want))
+    }).is_ok();
+    assert!(found);
+}
+
+#[kani::proof]
+#[kani::unwind(7)]
+fn c26_o3_varint_roundtrip() {
+    let v: u32 = kani::any();
+    let mut buf = [0u8; 5];
+    let n = write_varint_u32(v, &mut buf);
+    assert!(n == varint_u32_len(v));
+    let (got, used) = read_varint_u32(&buf).unwrap();
+    assert!(got == v && used == n);
+}
